@@ -1,6 +1,6 @@
 (* Props/C17.v -- property C17: refresh happens before expiry: session timers and registrations *)
 From Coq Require Import List NArith Bool.
-From EZK Require Import Gen.Tables Model.C17 Proofs.C17.
+From EZK Require Import Model.Forms10 Proofs.Forms10 Gen.Tables Model.C17 Proofs.C17.
 Import ListNotations.
 Open Scope N_scope.
 
@@ -69,3 +69,16 @@ Example C17_example :
   session_run 10 true 50000 50000 [30000; 60000] 200000 =
   [RefreshNeeded 110000; RefreshNeeded 160000].
 Proof. vm_compute. reflexivity. Qed.
+
+(* "refreshed strictly before the binding lifetime granted by the registrar runs out": whatever the sequence of granted lifetimes, the
+   refresh interval in force is the one built for the lifetime granted LAST; when the granted value is not stored, a raise followed by
+   a grant of the requested value leaves the interval of the raise running *)
+Theorem C17_granted_stored_guard : Tables.granted_lifetime_stored = true.
+Proof. reflexivity. Qed.
+
+Theorem C17_interval_follows_last_grant : Tables.granted_lifetime_stored = true ->
+  forall requested grants, snd (Forms10.reg_run requested grants) = last grants requested.
+Proof. exact reg_run_here. Qed.
+
+Theorem C17_granted_not_stored_refuted : forall r g, r <> g -> snd (Forms10.reg_run_form false r [g; r]) = g.
+Proof. exact reg_not_stored_refuted. Qed.
